@@ -3,8 +3,13 @@ package main
 import (
 	"encoding/json"
 	"fmt"
+	"os"
+	"os/exec"
+	"path/filepath"
+	"strconv"
 	"strings"
 
+	"verifharness/fuzzcase"
 	"verifharness/fw"
 	"verifharness/grid"
 
@@ -149,6 +154,65 @@ func genSliverCase(rng *fw.Rng) *SnapCase {
 	return &SnapCase{TMS: spec, IDs: []int{id}, Keep: rng.Bool(), Poly: [][][2]float64{ring}, Kind: "border-sliver"}
 }
 
+// c06Fuzz (thorough tier): a coverage-guided campaign of Go's native fuzzer as an additional workload generator.
+// The oracle stays C06's runtime monitor (normal return + step budgets), inside harness/fuzz.FuzzSnap.
+func c06Fuzz(p *fw.ParentCtx) {
+	if p.Tier != "thorough" {
+		return
+	}
+	harness := os.Getenv("VERIF_HARNESS")
+	if harness == "" {
+		p.Inconclusive = append(p.Inconclusive, "fuzz campaign not run: VERIF_HARNESS unset")
+		return
+	}
+	execs := "1500000x"
+	args := []string{"test"}
+	if mf := os.Getenv("VERIF_GO_MODFILE"); mf != "" {
+		args = append(args, "-modfile="+mf)
+	}
+	args = append(args, "-tags", "verif", "-run", "^$", "-fuzz", "FuzzSnap", "-fuzztime", execs, "-parallel", "16", "./fuzz")
+	cmd := exec.Command("timeout", append([]string{"-s", "QUIT", "5400", "go"}, args...)...)
+	cmd.Dir = harness
+	out, err := cmd.CombinedOutput()
+	text := string(out)
+	lastStats := ""
+	for _, l := range strings.Split(text, "\n") {
+		if strings.HasPrefix(l, "fuzz: elapsed:") {
+			lastStats = l
+		}
+	}
+	p.Extra["fuzz_campaign"] = map[string]any{"target": "harness/fuzz.FuzzSnap", "budget": execs, "last_status_line": lastStats}
+	if i := strings.Index(text, "Failing input written to "); i >= 0 {
+		rest := text[i+len("Failing input written to "):]
+		path := strings.TrimSpace(strings.SplitN(rest, "\n", 2)[0])
+		full := filepath.Join(harness, "fuzz", path)
+		b, rerr := os.ReadFile(full)
+		var cj []byte
+		if rerr == nil {
+			lines := strings.Split(string(b), "\n")
+			if len(lines) >= 2 && strings.HasPrefix(lines[1], "[]byte(") {
+				if raw, uerr := strconv.Unquote(strings.TrimSuffix(strings.TrimPrefix(lines[1], "[]byte("), ")")); uerr == nil {
+					if c := fuzzcase.Decode([]byte(raw)); c != nil {
+						sc := &SnapCase{TMS: c.Spec, IDs: c.IDs, Keep: c.Keep, Reverse: c.Reverse, Poly: c.Poly, Kind: "fuzz"}
+						cj = sc.JSON()
+					}
+				}
+			}
+			_ = os.RemoveAll(filepath.Join(harness, "fuzz", "testdata"))
+		}
+		if cj == nil {
+			cj = []byte(`{"note":"fuzz crasher could not be decoded"}`)
+		}
+		msg := "coverage-guided fuzzing found an input on which SnapPolygon does not return normally: " + tailStr(text, 1500)
+		p.Merged.ViolCount["fuzz-crash"]++
+		p.Merged.Violations = append(p.Merged.Violations, fw.Violation{Property: "C06", Class: "fuzz-crash", Msg: msg, Case: cj})
+		return
+	}
+	if err != nil {
+		p.Inconclusive = append(p.Inconclusive, "fuzz campaign did not complete: "+err.Error()+": "+tailStr(text, 400))
+	}
+}
+
 func init() {
 	pr := &Profile{Sets: c06Sets, Kinds: append(append([]string{}, allKinds...), "junk", "motif", "motif")}
 	fw.Register(&fw.Prop{
@@ -173,7 +237,7 @@ func init() {
 			}
 			judgeC06(c, &sc)
 		},
-		Rule: "all generators (valid, junk with repeats/step-backs/1-2 point rings/duplicated rings, motif = grammar of back-tracks, repetitions and zig-zags on pixel centres), 1-3 rings, all flags, dyadic + RD + WebMercator (ids up to 24) + WorldMercator + ETRS89 + UPS + NZTM grids, plus polygons within units of the right/top border of non-round grids; observed: normal return / Go panic (value and top texel frame) / death of the worker process / loop step budget of hook H3 exceeded; non-trivial = oracle's routed chain passes a pixel centre more than once; distinct by case hash",
+		Rule: "all generators (valid, junk with repeats/step-backs/1-2 point rings/duplicated rings, motif = grammar of back-tracks, repetitions and zig-zags on pixel centres), 1-3 rings, all flags, dyadic + RD + WebMercator (ids up to 24) + WorldMercator + ETRS89 + UPS + NZTM grids, plus polygons within units of the right/top border of non-round grids; observed: normal return / Go panic (value and top texel frame) / death of the worker process / loop step budget of hook H3 exceeded; non-trivial = oracle's routed chain passes a pixel centre more than once; distinct by case hash; thorough adds a coverage-guided campaign of Go's native fuzzer (harness/fuzz.FuzzSnap, 1.5 M executions, corpus seeded from the generators) whose crashers are converted to replay files",
 		Required: func(string) []string {
 			return []string{"returned_normally", "chain_with_repeated_centre", "input_ring_with_<3_points", "invalid_input", "gen:motif", "gen:junk"}
 		},
